@@ -929,8 +929,8 @@ func (s *Sim) genEvmTx(deploy bool) *TxSpec {
 	r := s.rng
 	from := s.pick(s.all)
 	if deploy {
-		progs := [][]byte{progStore(r), progForward(), progReverter(), progBalanceReader(), progSuicide()}
-		names := []string{"store", "forward", "reverter", "balance-reader", "suicide"}
+		progs := [][]byte{progStore(r), progForward(), progReverter(), progBalanceReader(), progSuicide(), progForwardAll()}
+		names := []string{"store", "forward", "reverter", "balance-reader", "suicide", "forward-all"}
 		i := r.Intn(len(progs))
 		t := s.baseTx(6, from, make([]byte, 20))
 		t.Data = deployer(progs[i])
